@@ -10,7 +10,9 @@ EXPLANATION = ("Q1 the transition relation of the start/next/finish shims, obtai
                "Closed returns the synthetic rc 80 without calls, otherwise the inner finish sets Closed and returns the stored result "
                "or the synthetic rc 88; Q7 a stream that was not read to the end (any state but Done) answers 88 even if a result is "
                "stored - or else every adapter path that starts a follow-up Search has emptied stream.res; Q2 the inner receive hands out ResultEntry(tag, controls) built from the received item's own "
-               "components, stores Done's result with its controls and returns Ok(None), maps a closed channel to Err(EndOfStream); "
+               "components, stores Done's result and returns Ok(None), maps a closed channel to Err(EndOfStream); the control list of the stored "
+               "result, as a list term over the list the received result carries itself and the vector received next to it, composed with "
+               "what the driver puts into those two when it forwards a SearchResultDone, is exactly the decoded control list - once; "
                "Q3 constants (is_ref <=> 19, is_intermediate <=> 25, 80, 88); Q4 Ldap::search = streaming_search_with(EntriesOnly) + "
                "push every entry in order + finish; EntriesOnly drops intermediates, collects referral URIs, passes everything else.")
 TRUSTED = ['the adapter chain is entered through these shims only (fields are private: witness crate)', 'tokio mpsc FIFO']
